@@ -89,6 +89,12 @@ def run_case(spec):
                         if unicode_src and rng.random() < 0.3:
                             line = line.replace('GENE_SYMBOL=GENE', 'GENE_SYMBOL=GÉNE')
                         fh.write(line + '\n')
+                if rng.random() < 0.2:
+                    # no line break after the last record (hand-edited / concatenated files)
+                    txt = open(p, encoding='utf-8').read()
+                    if txt.endswith('\n') and not txt.rstrip('\n').endswith('INFO'):
+                        open(p, 'w', encoding='utf-8').write(txt[:-1])
+                        counters['files_without_final_newline'] = counters.get('files_without_final_newline', 0) + 1
                 files.append((p, family, ch))
         # ---------- (1) text round trip through the repository reader / writer
         n_rt = 0
